@@ -41,6 +41,8 @@ DESIGNED = [
      "variant": {"carrier": "sparse", "designation": "indices", "container": "dict", "int_h0": True, "int_all": True, "scale_exp": 0}},
     {"hermitian": True, "sizes": [3, 2], "E": [1, 1, 4, 7, 7], "fd_tuple": [0, 1],                   # degenerate levels that are degenerate only up to rounding: a rotated dense H_0
      "variant": {"carrier": "dense", "designation": "rotated", "container": "dict", "int_h0": False, "level_rotation": True, "np_seed": 12345, "scale_exp": 0}},
+    {"hermitian": True, "sizes": [3], "E": [1, 3, 6],                                                # a single block given without any designation, carriers differing from order to order
+     "variant": {"carrier": "by-order", "designation": "none", "container": "dict", "int_h0": False, "scale_exp": 0}},
     {"hermitian": True, "sizes": [4], "E": [2, 2, 5, 5],                                              # the same for a single block (fully diagonalised by default)
      "variant": {"carrier": "dense", "designation": "rotated", "container": "dict", "int_h0": False, "level_rotation": True, "np_seed": 54321, "scale_exp": 0}},
 ]
@@ -228,6 +230,8 @@ def choose_variant(P, rnd):
         v["np_seed"] = rnd.randrange(2**31)
     if P.get("lab") is not None and rnd.random() < 0.7:
         v["designation"] = "biorthogonal"; v["carrier"] = "dense"; v["int_h0"] = False
+    if P["N"] == 1 and rnd.random() < 0.5:      # a single block needs no designation at all
+        v["designation"] = "none"; v["carrier"] = rnd.choice(["dense", "sparse", "spmatrix", "mixed", "mixed"]); v.pop("level_rotation", None); v.pop("np_seed", None)
     if v["designation"] in ("blockseries", "blockseries-blocked"): v["container"] = "dict"
     if v["designation"] in ("indices", "blockseries") and rnd.random() < 0.5: v["interleave"] = True
     if v["designation"] == "vectors" and v["carrier"] != "dense" and rnd.random() < 0.6: v["sparse_vectors"] = True
@@ -287,7 +291,7 @@ def run_impl_numeric(P, requests, v, rnd):
         mats = {n: m[np.ix_(perm, perm)] for n, m in mats.items()}
     def conv(a):
         c = v["carrier"] if v["carrier"] != "mixed" else rnd.choice(["dense", "sparse", "spmatrix"])
-        if c == "dense": return a
+        if c in ("dense", "by-order"): return a
         if v.get("explicit_zeros") and a.ndim == 2 and a.size:
             # CSR with every entry stored, zeros included (what arithmetic on sparse matrices leaves behind): the caller's buffers must survive as they are
             rr, cc = np.indices(a.shape); args = ((a.ravel().copy(), (rr.ravel(), cc.ravel())),); kws = dict(shape=a.shape)
@@ -308,6 +312,8 @@ def run_impl_numeric(P, requests, v, rnd):
             import pickle; pickle.dump({"data": data, "fd": P["fd_py"], "hermitian": P["hermitian"], "N": N, "k": k}, open(os.environ["BD_DEBUG"], "wb"))
     else:
         H = {n: conv(m) for n, m in mats.items()}
+        if v["carrier"] == "by-order":      # dense first-order terms next to legacy sparse matrices at the other orders
+            H = {n: (m if sum(n) % 2 == 1 else sparse.csr_matrix(m) if sum(n) else sparse.coo_matrix(m)) for n, m in mats.items()}
     if v["designation"] in ("indices", "blockseries"): kw["subspace_indices"] = idx_labels
     if v["designation"] == "vectors":
         eye = np.eye(d); kw["subspace_eigenvectors"] = [eye[:, off[b]:off[b + 1]] for b in range(N)]
